@@ -1,5 +1,6 @@
 """C13 -- a controller application sends application data only from an address it holds."""
 import j1939
+from fractions import Fraction
 
 from ..ref import ids
 from ..runner import Job
@@ -30,6 +31,10 @@ def h_send(ex, state, entry, addr=128, dll='j1939-21', sym_contender=False):
             ca.send_pgn(dp, pf, ps, prio, sym_payload(ex, 'b', 5))
         elif entry == 'send_pgn_long':
             ca.send_pgn(dp, pf, ps, prio, sym_payload(ex, 'b', 12))
+        elif entry == 'send_pgn_limit':
+            # J1939-22: the group waits in a multi-PG buffer and is sent by the job thread when its time limit expires
+            ca.send_pgn(dp, pf, ps, prio, sym_payload(ex, 'b', 6), time_limit=Fraction(1, 50))
+            w.run(until=w.now + T('1/10'))
         elif entry == 'send_request':
             ca.send_request(0, dp * 65536 + pf * 256 + ps, ex.fresh_int('dest', 0, 255))
         elif entry == 'dm22':
@@ -76,7 +81,7 @@ def h_send(ex, state, entry, addr=128, dll='j1939-21', sym_contender=False):
         for f in new:
             fld = ids.id_fields(f['id'])
             ex.claim('source_is_held_address', fld['sa'] == held, dict(info, id=f['id'], held=held))
-        if entry in ('send_message', 'send_pgn', 'send_pgn_long', 'send_request', 'dm22', 'dm11'):
+        if entry in ('send_message', 'send_pgn', 'send_pgn_long', 'send_pgn_limit', 'send_request', 'dm22', 'dm11'):
             ex.claim('something_sent', len(new) >= 1, info)
     ex.observe('frames', [[f['id'], f['data']] for f in new])
     ex.observe('raised', raised is not None)
@@ -169,7 +174,7 @@ def jobs(tier):
             out.append(Job('C13', 'c13:h_send', {'state': state, 'entry': entry, 'addr': 128, 'sym_contender': True}, W=96, wall=300, validate=1))
     if True:
         for state in CA_STATES:
-            for entry in ('send_pgn', 'send_pgn_long', 'send_request'):
+            for entry in ('send_pgn', 'send_pgn_long', 'send_request', 'send_pgn_limit'):
                 out.append(Job('C13', 'c13:h_send', {'state': state, 'entry': entry, 'addr': 10 if state == 'normal_immediate' else 200, 'dll': 'j1939-22'}, W=40, wall=120, validate=1))
     if tier != 'quick':
         # every history x every entry point on more preferred addresses, both data link layers
